@@ -74,9 +74,10 @@ def _directly_asserted_variables(test_case: tc.TestCase) -> set[str]:
                 continue
             if isinstance(assertion, ReferenceAssertion):
                 source = assertion.source
-                # In the libcst representation the source is the variable name.
+                # In the libcst representation the source is the variable name,
+                # possibly followed by a field access (e.g. ``var_0.value``).
                 if isinstance(source, str):
-                    protected.add(source)
+                    protected.add(source.split(".", maxsplit=1)[0].split("[", maxsplit=1)[0])
     return protected
 
 
